@@ -3,7 +3,7 @@
 followed by all 19 quick checks on each copy.  Every check must stay silent (rc 0) on every copy: a non-zero rc is a defect
 of the checks (brittleness against the spelling of the code), never of the code.
 
-    tools/mechanical.py [kind ...]        kinds: unparse locals invert splitand methods attrs flags whiletrue guard ternary augassign format percent continue elsereturn flipcmp hoist match walrus tryelse bindmethods chained nextfind static indexloop aliasinit effectcomp   (default: all)
+    tools/mechanical.py [kind ...]        kinds: unparse locals invert splitand methods attrs flags whiletrue guard ternary augassign format percent continue elsereturn flipcmp hoist match walrus tryelse bindmethods chained nextfind static indexloop aliasinit effectcomp isinsplit strconcat   (default: all)
 
 Not a registered check: it exercises the checks, it decides no property."""
 import ast, os, shutil, subprocess, sys, tempfile, builtins
@@ -504,6 +504,35 @@ class EffectComprehension(ast.NodeTransformer):
         return f
 
 
+
+class IsinstanceSplit(ast.NodeTransformer):
+    """isinstance(x, (A, B))  ->  isinstance(x, A) or isinstance(x, B)     (x a plain name / attribute path)"""
+
+    def visit_Call(self, n):
+        self.generic_visit(n)
+        if isinstance(n.func, ast.Name) and n.func.id == "isinstance" and len(n.args) == 2 and isinstance(n.args[1], ast.Tuple) and len(n.args[1].elts) >= 2 \
+                and isinstance(n.args[0], (ast.Name, ast.Attribute)) and not n.keywords:
+            return ast.BoolOp(op=ast.Or(), values=[ast.Call(func=ast.Name(id="isinstance", ctx=ast.Load()), args=[n.args[0], e], keywords=[]) for e in n.args[1].elts])
+        return n
+
+
+class StrConcat(ast.NodeTransformer):
+    """f"..{a}.."  (plain fields only)  ->  ".." + str(a) + ".."     (only for fields that are names / attribute paths; log and error texts)"""
+
+    def visit_JoinedStr(self, n):
+        if not n.values or not all(isinstance(v, ast.Constant) or (isinstance(v, ast.FormattedValue) and v.conversion == -1 and v.format_spec is None and isinstance(v.value, (ast.Name, ast.Attribute))) for v in n.values):
+            return n
+        if not any(isinstance(v, ast.FormattedValue) for v in n.values) or len(n.values) > 6:
+            return n
+        parts = [v if isinstance(v, ast.Constant) else ast.Call(func=ast.Name(id="format", ctx=ast.Load()), args=[v.value], keywords=[]) for v in n.values]
+        e = parts[0] if isinstance(parts[0], ast.Constant) or len(parts) > 1 else parts[0]
+        if not isinstance(parts[0], ast.Constant):
+            e = ast.BinOp(left=ast.Constant(value=""), op=ast.Add(), right=parts[0])
+        for p_ in parts[1:]:
+            e = ast.BinOp(left=e, op=ast.Add(), right=p_)
+        return e
+
+
 def hoist_attrs(trees):
     """in every method: `self.<attr>` that is bound only in __init__ (never rebound anywhere in the program) and read at least
     twice is read once into a local at the top of the method (an alias of the same object)"""
@@ -691,6 +720,20 @@ def make(kind, dst):
     elif kind == "effectcomp":
         for p, t in trees.items():
             trees[p] = EffectComprehension().visit(t)
+    elif kind == "isinsplit":
+        for p, t in trees.items():
+            trees[p] = IsinstanceSplit().visit(t)
+    elif kind == "strconcat":
+        for p, t in trees.items():
+            # only raise / logging texts: the message of an exception or of a log call
+            class Only(ast.NodeTransformer):
+                def visit_Raise(self_, r):
+                    return StrConcat().visit(r)
+                def visit_Expr(self_, x):
+                    if isinstance(x.value, ast.Call) and isinstance(x.value.func, ast.Attribute) and x.value.func.attr in ("error", "warning", "info", "debug", "critical"):
+                        return StrConcat().visit(x)
+                    return x
+            trees[p] = Only().visit(t)
     elif kind == "hoist":
         hoist_attrs(trees)
     elif kind == "methods":
@@ -707,7 +750,7 @@ def make(kind, dst):
 
 
 def main():
-    kinds = sys.argv[1:] or ["unparse", "locals", "invert", "splitand", "methods", "attrs", "flags", "whiletrue", "guard", "ternary", "augassign", "format", "percent", "continue", "elsereturn", "flipcmp", "hoist", "match", "walrus", "tryelse", "bindmethods", "chained", "nextfind", "static", "indexloop", "aliasinit", "effectcomp"]
+    kinds = sys.argv[1:] or ["unparse", "locals", "invert", "splitand", "methods", "attrs", "flags", "whiletrue", "guard", "ternary", "augassign", "format", "percent", "continue", "elsereturn", "flipcmp", "hoist", "match", "walrus", "tryelse", "bindmethods", "chained", "nextfind", "static", "indexloop", "aliasinit", "effectcomp", "isinsplit", "strconcat"]
     bad = 0
     for kind in kinds:
         tmp = tempfile.mkdtemp(prefix=f"pyrtma-mech-{kind}-")
